@@ -232,3 +232,71 @@ package rpc
 //@       isVarintAt(buf, 0, res.Seq) && isLP(buf, offset, res.Error)
 //@   cut if.done#3 frame buf[offset:]: offset == codeResB(res, 2) && n == codeLP(uint64(len(res.Reply))) &&
 //@       offset <= 20 + uint64(len(res.Error)) && isLP(buf, offset, res.Reply)
+
+// ---------------------------------------------------------------------------
+// Part 3: Transport (transport.go) — lock Transport.connsMu
+// ---------------------------------------------------------------------------
+// ghost fields: gf_addr(pc) = identity of the address a persistConn was dialed to; gb_aliveSeen(pc) = pc.alive was read
+// as true during the current activation (or pc was created alive by it).
+
+//@ axiom MaxConnsPerHost >= 1 && MaxConnsPerHost <= 1<<30 && MaxIdleConnsPerHost >= 1 && MaxIdleConnsPerHost <= 1<<30
+
+//@ observe persistConn.alive as aliveSeen
+
+//@ pure csOK(cs *conns, a int) bool = cs != nil && sid(cs.addr) == a && cs.cursor >= 0 && cs.cursor <= 1<<47 &&
+//@      forall(i, 0, len(cs.Conns), cs.Conns[i] != nil && gf_addr(cs.Conns[i]) == a)
+//@ pure cqOK(cq *connQueue, a int, maxIdle int) bool = cq != nil && sid(cq.addr) == a && 0 <= cq.length && cq.length <= cq.capacity && cq.capacity <= maxIdle
+//@ pure nAct(t *Transport, a int) int = ite(has(t.conns, a), len(t.conns[a].Conns), 0)
+//@ pure nIdle(t *Transport, a int) int = ite(has(t.idleConns, a), t.idleConns[a].length, 0)
+
+//@ lockinv Transport.connsMu
+//@   property C13 C14 C15
+//@   guards Transport.conns, Transport.idleConns, Transport.running, Transport.Dial, Transport.DialWithOptions, Transport.MaxConnsPerHost, Transport.MaxIdleConnsPerHost, conns.Conns, conns.cursor, connQueue.length, Map<map[string]*conns>, Map<map[string]*connQueue>, Elem<*persistConn>, Once.done
+//@   invariant onceDone(self) == self.running
+//@   invariant implies(self.running, self.conns != nil && self.idleConns != nil && 1 <= self.MaxIdleConnsPerHost && 1 <= self.MaxConnsPerHost && !isnil(self.Dial) && !isnil(self.DialWithOptions))
+//@   invariant forallkey(a, self.conns, csOK(self.conns[a], a))
+//@   invariant forallkey(a, self.conns, forallkey(b, self.conns, implies(a != b && arr(self.conns[a].Conns) != 0, arr(self.conns[a].Conns) != arr(self.conns[b].Conns))))
+//@   invariant forallkey(a, self.idleConns, cqOK(self.idleConns[a], a, self.MaxIdleConnsPerHost))
+//@   invariant [C13] forallint(a, nAct(self, a) + nIdle(self, a) <= self.MaxConnsPerHost)
+
+//@ extern Transport.Dial
+//@   params network, address, codec
+//@   ensures implies(err == nil, result != nil)
+//@ extern Transport.DialWithOptions
+//@   params address, opts
+//@   ensures implies(err == nil, result != nil)
+
+//@ func (*Transport).newPersistConn
+//@   property C13 C14
+//@   requires t != nil && holds(Transport_connsMu) && !isnil(t.Dial) && !isnil(t.DialWithOptions)
+//@   ghostset gf_addr(result0) = sid(addr)
+//@   ghostset gb_aliveSeen(result0) = true
+//@   ensures implies(err == nil, result0 != nil && fresh(result0) && gf_addr(result0) == sid(addr) && gb_aliveSeen(result0))
+//@   ensures implies(err != nil, result0 == nil && err == ErrDial)
+
+//@ func (*conns).Cursor
+//@   property C13
+//@   requires c != nil && len(c.Conns) >= 1 && c.cursor >= 0 && c.cursor <= 1<<47 && holds(Transport_connsMu)
+//@   ensures 0 <= result && result < len(c.Conns) && c.cursor == result
+//@   modifies c.cursor
+
+//@ func (*connQueue).Length
+//@   inline
+//@ func (*conns).Append
+//@   inline
+
+//@ func (*connQueue).Dequeue
+//@   trusted
+//@   property C13 C14
+//@   requires q != nil
+//@   ensures implies(old(q.length) == 0, result == nil && q.length == 0)
+//@   ensures implies(old(q.length) != 0, result != nil && gf_addr(result) == sid(q.addr) && q.length == old(q.length) - 1)
+//@   modifies q.length
+
+//@ func (*Transport).getConn
+//@   property C13 C14
+//@   requires t != nil
+//@   ensures implies(len(addr) == 0, pc == nil && err == ErrDial)
+//@   ensures implies(err == nil, pc != nil && gf_addr(pc) == sid(addr))
+//@   ensures [C14] implies(err == nil, gb_aliveSeen(pc))
+//@   ensures implies(err != nil, pc == nil && err == ErrDial)
